@@ -929,7 +929,8 @@ class Run:
         self.trace.log(ev='QUERY', step=self.step, name=e.name, q=q, exc=exc, ref_exc=ref_exc, client=op.get('client'),
                        fp=canon(self.coarse(ref)) if ref_exc is None else None)
         sig = {'q': q}
-        if exc != ref_exc and self.on_a_discontinuity(q, M, op):
+        if exc != ref_exc and (q in ('plot', 'shape') or self.on_a_discontinuity(q, M, op)):
+            # (plots and shape analysis are exercised for their side effects on the data only: fits and clusterings may fail on noise)
             # the analysis decides by a comparison that the data sit exactly on (tie on a k/n grid): which side an ulp of
             # representation noise falls is not a changed answer - the same narrow relaxation as for the values below
             self.stats.relax('outcome_on_a_discontinuity_' + q)
